@@ -164,7 +164,7 @@ class Gen:
         while builds < target:
             for _ in range(rng.choice([0, 1, 1, 1, 2, 2, 3])):
                 kind = rng.choices(["val", "equal", "revert", "graph", "rootval", "rootincs", "delete", "create", "swap"],
-                                   [30, 14, 16, 12, 5, 8, 5, 6, 4])[0]
+                                   [30, 14, 16, 12, 5, 8, 3, 8, 4])[0]
                 hs = [p for p in files if p != 0]
                 if kind == "val" and hs:
                     p = rng.choice(hs)
@@ -277,19 +277,19 @@ def run(run, tier, seed, replay_case=None):
         else:
             rng = random.Random(seed * 15485863 + 7)
             g = Gen(rng, 8 if tier == "quick" else 10)
-            n = 9 if tier == "quick" else 60
+            n = 6 if tier == "quick" else 150
             cases = C.load_corpus(PROP) + [g.history() for _ in range(n)]
         I, R, S = d.eval(cases) if cases else ([], [], [])
         if replay_case is not None and cases:
             print("case: %s\nimplementation: %s\nmodel: %s\nspecification: %s" % (replay_case, I[0], R[0], S[0]))
         # bounded shrinking of the first failing histories (every step re-runs real builds)
         fails = [i for i in range(len(cases)) if d.fails_spec(I[i], S[i])]
-        for i in fails[:2]:
+        for i in fails[:1]:
             def still(tokens):
                 l = " ".join(tokens)
                 i1, r1, s1 = d.eval([l])
                 return d.fails_spec(i1[0], s1[0])
-            small = " ".join(C.shrink_tokens(cases[i].split(" "), still, max_rounds=24))
+            small = " ".join(C.shrink_tokens(cases[i].split(" "), still, max_rounds=14))
             if small != cases[i]:
                 i1, r1, s1 = d.eval([small])
                 cases[i], I[i], R[i], S[i] = small, i1[0], r1[0], s1[0]
